@@ -167,7 +167,7 @@ def run_cell(ploidy, na, rng, col, K, spec_name):
                             nb += 1
                             col.violation("allele-conditional-not-exact", "conditional prior of allele %d given %s = %.12g want %.12g (ploidy %d alleles %d F %g freq %s)" % (b, rest, got, want, ploidy, na, F, fname),
                                           {"kind": "conditional", "rest": list(rest), "allele": b, **cell})
-            if spec_name == "s00" and ploidy == 2 and na == 3 and F == 0.1 and fname == "rand":
+            if len(col.samples) < 1 and F == 0.1 and fname in ("rand", "none") and len(gs) <= 40:
                 col.sample({"cell": cell, "genotypes": [list(g) for g in gs], "log_prior_observed": lps.tolist()})
 
 
